@@ -140,6 +140,9 @@ type Server struct {
 	// LateHook is called (on the session's goroutine) when a step with a "late" outcome is reached,
 	// before the delay starts: the moment at which the client is waiting for that reply.
 	LateHook func(step string)
+	// DataHook is called (on the session's goroutine) right after a DATA command was answered 354, with
+	// the number of the transaction on that connection: the client is about to send, or is sending, content.
+	DataHook func(txn int)
 }
 
 // NewServer creates a server for one case.
@@ -878,6 +881,9 @@ func (s *Server) serve(rawConn net.Conn, implicitTLS bool, sess *Session) {
 				continue
 			}
 			txn.DataOK = true
+			if s.DataHook != nil {
+				s.DataHook(sess.counts["MAIL"])
+			}
 			thisTxn := sc.DataTxn == 0 || sc.DataTxn == dataN
 			limit := -1
 			if (sc.DropData || sc.StallData) && thisTxn {
